@@ -151,6 +151,7 @@ type Walker struct {
 	P       *Prog
 	Fn      *ssa.Function
 	IsEvent func(in ssa.Instruction) bool
+	OnEvent func(in ssa.Instruction, st *WState) // called with the path state when an event instruction is reached
 	OnExit  func(in ssa.Instruction, st *WState) // *ssa.Return or *ssa.Panic
 	Limit   int
 	steps   int
@@ -240,6 +241,9 @@ func (w *Walker) visit(st *WState, from *ssa.BasicBlock, visited map[string]bool
 			return
 		}
 		if w.IsEvent != nil && w.IsEvent(in) {
+			if w.OnEvent != nil {
+				w.OnEvent(in, st)
+			}
 			dup := false
 			for _, e := range st.Events {
 				if e == in {
